@@ -42,7 +42,7 @@ CtxOf(e) ==
   IF e.op \in {"redraw", "same", "bad"}
     THEN IF TopLeaf(e.lay) THEN (IF cv # {} THEN "non-composite-after-images" ELSE "non-composite")
          ELSE IF e.op = "bad" THEN "failing-draw" ELSE "composite"
-    ELSE e.op
+    ELSE IF e.op = "climg" THEN (IF e.now THEN "clear_images-now" ELSE "clear_images") ELSE e.op
 V(v, info, n) == [v |-> v, at |-> l + 1, info |-> info, alias |-> FALSE, topimg |-> FALSE, n |-> n,
                   ctx |-> CtxOf(Ev[l + 1])]
 
@@ -166,6 +166,31 @@ ClearStep(e, free0) ==
   IN Res(T1, cv, nxt, free0, IF e.op \in {"stop", "clear"} THEN FALSE ELSE taint, topw, skipm, NoDisc, pv, OK,
          [stats EXCEPT !.clears = @ + 1, !.toks = @ + Len(e.toks)])
 
+\* direct user call screen.clear_images(now=e.now) (e.w = 0) or screen.clear_images(widget e.w, now=e.now)
+\* between redraws: the images concerned leave the terminal at once and the text urwid compares
+\* (disguise) changes, so that the NEXT redraw - judged as any other - sends them again
+DirectClearStep(e, free0) ==
+  LET T1 == Fold(T, e.toks, Gfx, 1)
+      wd == e.wd
+      all == e.w = 0
+      kitty == ~all /\ wd[e.w].style = "kitty"
+      affected == IF all THEN {w \in DOMAIN wd : wd[w].alive /\ Tracked(Id, wd[w].style) /\ w \in DOMAIN PrevDis.w}
+                  ELSE IF kitty THEN {e.w} ELSE {}
+      pv == IF e.exc # "" THEN V("exception", e.exc, 0)
+            ELSE IF T1.err # "" THEN V("terminal-error", T1.err, 0)
+            ELSE IF ~Supported(Id) /\ ~NoGraphics(e.toks) THEN V("graphics-unsupported", e.op, 0)
+            ELSE IF Supported(Id) /\ all /\ ~HasDeleteAll(e.toks, Gfx) THEN V("no-delete-all", "clear_images", 0)
+            ELSE IF Supported(Id) /\ all /\ T1.pl # <<>> THEN V("not-cleared", "clear_images", Len(T1.pl))
+            ELSE IF Supported(Id) /\ kitty /\ DeletedZ(e.toks, Gfx) # {wd[e.w].z}
+                   THEN V("widget-not-deleted", "clear_images", 0)
+            ELSE IF Supported(Id) /\ kitty /\ \E i \in DOMAIN T1.pl : T1.pl[i].proto = "kitty" /\ Gfx[T1.pl[i].x + 1].zid = wd[e.w].z
+                   THEN V("not-cleared", "clear_images(widget)", 0)
+            ELSE IF Supported(Id) /\ \E w \in affected : DisSum(e.dis, w) = DisSum(PrevDis, w)
+                   THEN V("disguise-unchanged", ToJson(affected), 0)
+            ELSE OK
+  IN Res(T1, cv, nxt, free0, taint, topw, skipm, NoDisc, pv, OK,
+         [stats EXCEPT !.clears = @ + 1, !.toks = @ + Len(e.toks)])
+
 \* widget created (e.w = its id, 0 if the constructor raised), dropped or invalidated
 WidgetStep(e, free0) ==
   LET wd == e.wd
@@ -183,11 +208,14 @@ WidgetStep(e, free0) ==
   IN Res(T, cv, o.next, o.free, taint, topw, skipm, disc, pv, OK, [stats EXCEPT !.wops = @ + 1])
 
 \* clauses evaluated after EVERY event on what the process holds afterwards
+\* property level: live kitty widgets (of whatever widget class) hold pairwise distinct z-indexes in range
+ZClause(e) ==
+  IF ~DistinctLimbs(e.wd) THEN V("z-not-distinct", "", 0)
+  ELSE IF ~InRange(e.wd) THEN V("z-out-of-range", "", 0)
+  ELSE OK
+\* mechanism level: the allocator's free pool and counter are what the model says
 AfterClause(e, r) ==
-  LET wd == e.wd IN
-    IF ~DistinctLimbs(wd) THEN V("z-not-distinct", "", 0)
-    ELSE IF ~InRange(wd) THEN V("z-out-of-range", "", 0)
-    ELSE IF {e.free[i] : i \in DOMAIN e.free} # r.free THEN V("alloc-free-set", ToJson(r.free), 0)
+    IF {e.free[i] : i \in DOMAIN e.free} # r.free THEN V("alloc-free-set", ToJson(r.free), 0)
     ELSE IF e.next # r.nxt THEN V("alloc-next", "", r.nxt)
     ELSE OK
 
@@ -210,6 +238,7 @@ StepOf(e) ==
   LET free0 == free \cup Released(e.wd) IN
     CASE e.op \in {"redraw", "same", "bad"} -> RedrawStep(e, free0)
       [] e.op \in {"start", "stop", "clear"} -> ClearStep(e, free0)
+      [] e.op = "climg" -> DirectClearStep(e, free0)
       [] OTHER -> WidgetStep(e, free0)
 
 \* (the result is bound through a singleton set so that TLC evaluates the step exactly once)
@@ -217,14 +246,15 @@ Consume ==
   /\ l < N
   /\ l' = l + 1
   /\ \E r \in {StepOf(Ev[l + 1])} :
-       \E pv \in {IF r.pv.v # "ok" THEN r.pv ELSE AfterClause(Ev[l + 1], r)} :
+       \E zc \in {ZClause(Ev[l + 1])} :
+       \E pv \in {IF r.pv.v # "ok" THEN r.pv ELSE IF zc.v # "ok" THEN zc ELSE AfterClause(Ev[l + 1], r)} :
         /\ T' = r.T /\ cv' = r.cv /\ nxt' = r.nxt /\ free' = r.free
         /\ taint' = r.taint /\ topw' = r.topw /\ skipm' = r.skipm /\ disc' = r.disc /\ stats' = r.st
         /\ verdict' = IF verdict.v # "ok" THEN verdict ELSE pv
         /\ mech' = IF mech.v # "ok" \/ Fatal(verdict) THEN mech ELSE r.mv
         \* every distinct kind of failure of the history, until a fatal one makes the rest meaningless
         /\ kinds' = IF Fatal(verdict) THEN kinds
-                     ELSE kinds \cup {Kind(x) : x \in {y \in {pv, r.mv} : y.v # "ok"}}
+                     ELSE kinds \cup {Kind(x) : x \in {y \in {pv, r.mv, zc} : y.v # "ok"}}
   /\ UNCHANGED tid
 
 Next == Consume
